@@ -272,6 +272,15 @@ INSERT INTO z SELECT i, i%%13, CASE i%%3 WHEN 0 THEN 'k'||(i%%5) WHEN 1 THEN 'K'
 			`CREATE INDEX z_expr2 ON z (a * 2)`,
 			`VACUUM`,
 		}},
+		{"many-tables-multi-page-master", func() []string {
+			var st []string
+			for i := 0; i < 45; i++ {
+				st = append(st, fmt.Sprintf("CREATE TABLE m%02d (id INTEGER PRIMARY KEY, v_%d TEXT, w)", i, i), fmt.Sprintf("CREATE INDEX m%02d_w ON m%02d (w, v_%d)", i, i, i),
+					fmt.Sprintf("INSERT INTO m%02d VALUES (%d, 'row of m%02d', %d), (%d, 'second', NULL)", i, i+1, i, i*i, i+100))
+			}
+			st = append(st, "DROP TABLE m07", "DROP INDEX m20_w", "CREATE TABLE late (a, b)", "INSERT INTO late VALUES (1, 2)")
+			return st
+		}()},
 		{"named-like-rowid", []string{
 			`CREATE TABLE r (oid TEXT, rowid INTEGER, label)`,
 			`INSERT INTO r VALUES ('a', 100, 'x'), ('b', 200, 'y'), ('c', NULL, 'z')`,
@@ -338,6 +347,9 @@ func fwRun(r *ev.Run, which string) {
 			if err := l.Exec(st); err != nil {
 				r.Harness("Fw %s stmt %d: %v", j.sc.Name, k, err)
 				return
+			}
+			if len(j.sc.Stmts) > 60 && k%9 != 0 && k < len(j.sc.Stmts)-5 {
+				continue // long scripts: compare after every 9th statement and after each of the last 5
 			}
 			img := l.Serialize()
 			if len(img) == 0 {
